@@ -539,6 +539,31 @@ def extract_function(fn):
             # the code no longer has the loops the contract file annotates: verify the (now loop-free) body against the same function contract
             loops = {}
             log.append("NOTE: body has no loops any more (contract file annotates %d): loop contracts dropped, function contract unchanged" % fn["nloops"])
+        elif fn.get("loop_heads") and len(lp) < fn["nloops"]:
+            # some annotated loops are gone (e.g. a 'while' became an 'if'): re-associate the remaining loop contracts with the loops whose header text they name,
+            # drop the contracts of loops that no longer exist, and verify the body against the unchanged function contract
+            heads = fn["loop_heads"]
+            remap, used = {}, set()
+            for ordn in sorted(loops):
+                pat = heads.get(ordn)
+                if pat is None:
+                    raise ExtractionBroken("%s: %d loops in body, contract file expects %d (no loop_heads entry for loop #%d)" % (fn["name"], len(lp), fn["nloops"], ordn))
+                hit = None
+                for k, (kind, ipos) in enumerate(lp):
+                    if k in used:
+                        continue
+                    start = max(body.rfind("for", 0, ipos), body.rfind("while", 0, ipos), body.rfind("do", 0, ipos))
+                    if re.search(pat, body[start:ipos]):
+                        hit = k
+                        break
+                if hit is None:
+                    log.append("NOTE: loop #%d (/%s/) is no longer a loop in the body: loop contracts dropped for it, function contract unchanged" % (ordn, pat))
+                else:
+                    used.add(hit)
+                    remap[hit + 1] = loops[ordn]
+            if len(used) != len(lp):
+                raise ExtractionBroken("%s: %d loops in body, contract file expects %d and a remaining loop matches no annotated loop head" % (fn["name"], len(lp), fn["nloops"]))
+            loops = remap
         else:
             raise ExtractionBroken("%s: %d loops in body, contract file expects %d" % (fn["name"], len(lp), fn["nloops"]))
     for ordn in sorted(loops, reverse=True):
